@@ -18,7 +18,7 @@ from . import build, refmacro
 from .harness import new_result, fail, bump
 
 PROP = 'C17'
-RUNS = {'quick': 2400, 'thorough': 120000}
+RUNS = {'quick': 12000, 'thorough': 400000}
 BUDGET_S = {'quick': 150, 'thorough': 2400}
 CHUNK = 20
 
